@@ -9,4 +9,4 @@ mkdir -p "$D/repo"
 cp -r /repo/src "$D/repo/src"
 ( cd "$D/repo" && patch -p1 -s < "$P" )
 cd "$(dirname "$0")/.."
-VERIF_OUT="$D/out" VERIF_REPO="$D/repo" ./check "$ID" --tier "$TIER" 2>&1 | grep -E "VIOLATION|KNOWN|DEGRADED|CHECKER|obligations," | cut -c1-220 | awk "NR<=6 || /obligations,/"; echo "exit=${PIPESTATUS[0]}"
+VERIF_OUT="$D/out" VERIF_REPO="$D/repo" ./check "$ID" --tier "$TIER" 2>&1 | grep -E "VIOLATION|DEGRADED|CHECKER|obligations," | cut -c1-220 | awk "NR<=6 || /obligations,/"; echo "exit=${PIPESTATUS[0]}"
